@@ -670,7 +670,11 @@ func (a *An) randDestinations(rule string) {
 				n++
 				rel := a.C.rel(a.C.pathOf(v))
 				if !strings.HasPrefix(rel, "$") {
-					continue // a local buffer of the drawing function
+					// a local buffer of the drawing function: when the function zeroes it at all (it holds a secret), it is
+					// zeroed on every path from the successful draw to a return — an early return between the draw and the
+					// erasure (a later step failing) drops the secret unerased
+					a.localDrawErased(rule, f, call, root(v))
+					continue
 				}
 				persistent++
 				abs := a.C.abs(f, rel)
@@ -753,4 +757,72 @@ func (a *An) endForgetsLastText(rule string) {
 		R.Check(good && n > 0, rule, "End|"+st.name, "End() in state "+st.name+" "+what, a.C.Pos(f.Pos()),
 			fmt.Sprintf("not on every path (%d paths, enumeration complete=%v): a text already delivered in the ended session is sent again with the next queued text, or queued texts are lost", n, complete))
 	}
+}
+
+// localDrawErased: see randDestinations.
+func (a *An) localDrawErased(rule string, f *ssa.Function, draw ssa.CallInstruction, buf ssa.Value) {
+	aliases := map[ssa.Value]bool{buf: true}
+	if dv, ok := draw.(ssa.Value); ok {
+		aliases[dv] = true
+		if refs := dv.Referrers(); refs != nil {
+			for _, r := range *refs {
+				if ex, isEx := r.(*ssa.Extract); isEx {
+					aliases[ex] = true
+				}
+			}
+		}
+	}
+	rootOf := func(v ssa.Value) ssa.Value {
+		for {
+			switch x := v.(type) {
+			case *ssa.Slice:
+				v = x.X
+				continue
+			case *ssa.ChangeType:
+				v = x.X
+				continue
+			case *ssa.Convert:
+				v = x.X
+				continue
+			}
+			return v
+		}
+	}
+	var wipes []ssa.Instruction
+	for _, b := range f.Blocks {
+		for _, in := range b.Instrs {
+			call, ok := in.(ssa.CallInstruction)
+			if !ok {
+				continue
+			}
+			sc := call.Common().StaticCallee()
+			if sc == nil || !erasePrims[sc.Name()] || sc.Signature.Recv() != nil || len(call.Common().Args) == 0 {
+				continue
+			}
+			if aliases[rootOf(call.Common().Args[0])] || aliases[call.Common().Args[0]] {
+				wipes = append(wipes, in)
+			}
+		}
+	}
+	if len(wipes) == 0 {
+		return // not treated as a secret by this function
+	}
+	name := ""
+	if sc := draw.Common().StaticCallee(); sc != nil {
+		name = a.C.Name(sc)
+	}
+	good, bad := true, ""
+	for _, r := range a.returnsOf(f) {
+		if !canReach(draw, r) {
+			continue
+		}
+		if name != "" && a.F.LocalAt(r).Has("fail:"+name) {
+			continue // the draw itself failed
+		}
+		if reachesAvoiding(draw, r, wipes, nil) {
+			good, bad = false, a.C.InstrPos(r)
+		}
+	}
+	a.R.Check(good, rule, a.C.Name(a.C.owner(f))+"|local-secret|"+a.C.Term(buf), "a secret drawn into a local buffer is zeroed on every path that follows the draw", a.C.InstrPos(draw),
+		"the return at "+bad+" is reachable after the draw without the erasure the function applies elsewhere: a step failing in between drops the secret unerased")
 }
